@@ -334,17 +334,46 @@ type c11fault struct {
 	Line   string `json:"injected_line,omitempty"`
 }
 
-func c11Prepare(path string, c c11case) {
-	os.Remove(path)
-	l := -1
+// c11PriorLen: length in bytes of the image before the script opens it (-1: absent).
+func c11PriorLen(c c11case) int {
 	switch c.Prior {
 	case "larger":
-		l = (c.N + 2) * bs
+		return (c.N + 2) * bs
 	case "exact":
-		l = c.N * bs
+		return c.N * bs
 	case "smaller":
-		l = bs
+		return bs
 	}
+	return -1
+}
+
+// c11ChildArgs: the child is told the prior length (0 for an absent image) so
+// that it knows the expected content of blocks the script never wrote.
+func c11ChildArgs(img string, c c11case) []string {
+	l := c11PriorLen(c)
+	if l < 0 {
+		l = 0
+	}
+	return []string{"c11-child", img, fmt.Sprint(c.N), c.Script, fmt.Sprint(l)}
+}
+
+// the faked transfer counts of the short-transfer family
+var c11ShortCounts = []int{0, 1, 100, 4095}
+
+func shortCount(kind string) (int, bool) {
+	if !strings.HasPrefix(kind, "short") {
+		return 0, false
+	}
+	var k int
+	if _, err := fmt.Sscanf(kind, "short%d", &k); err != nil {
+		return 0, false
+	}
+	return k, true
+}
+
+func c11Prepare(path string, c c11case) {
+	os.Remove(path)
+	l := c11PriorLen(c)
 	if l >= 0 {
 		b := make([]byte, l)
 		for i := range b {
@@ -403,7 +432,7 @@ func c11Faults(r *core.Run) (landed int64, kindsPlanned, kindsLanded map[string]
 		d := mkdirFresh(base, cases[i].Name, "rec")
 		img := filepath.Join(d, "img")
 		c11Prepare(img, cases[i])
-		recs[i] = runStrace(bin, d, filepath.Join(d, "log"), "", "c11-child", img, fmt.Sprint(cases[i].N), cases[i].Script)
+		recs[i] = runStrace(bin, d, filepath.Join(d, "log"), "", c11ChildArgs(img, cases[i])...)
 	})
 	var plan []c11fault
 	for ci, c := range cases {
@@ -463,7 +492,9 @@ func c11Faults(r *core.Run) (landed int64, kindsPlanned, kindsLanded map[string]
 					plan = append(plan, c11fault{Case: ci, CaseN: c.Name, Call: call.I, Op: op, Sys: e.Name, Occ: occ, Kind: k})
 				}
 				if e.Name == "pread64" || e.Name == "pwrite64" {
-					plan = append(plan, c11fault{Case: ci, CaseN: c.Name, Call: call.I, Op: op, Sys: e.Name, Occ: occ, Kind: "short100"})
+					for _, k := range c11ShortCounts {
+						plan = append(plan, c11fault{Case: ci, CaseN: c.Name, Call: call.I, Op: op, Sys: e.Name, Occ: occ, Kind: fmt.Sprintf("short%d", k)})
+					}
 				}
 			}
 		}
@@ -495,14 +526,14 @@ func c11Faults(r *core.Run) (landed int64, kindsPlanned, kindsLanded map[string]
 		kindsPlanned[kindsPlannedKey] = true
 		mu.Unlock()
 		inj := fmt.Sprintf("%s:error=%s:when=%d", f.Sys, f.Kind, f.Occ)
-		if f.Kind == "short100" {
-			inj = fmt.Sprintf("%s:retval=100:when=%d", f.Sys, f.Occ)
+		if k, ok := shortCount(f.Kind); ok {
+			inj = fmt.Sprintf("%s:retval=%d:when=%d", f.Sys, k, f.Occ)
 		}
 		for attempt := 0; attempt < 2; attempt++ {
 			d := mkdirFresh(base, c.Name, fmt.Sprintf("f%d-%d", i, attempt))
 			img := filepath.Join(d, "img")
 			c11Prepare(img, c)
-			sr := runStrace(bin, d, filepath.Join(d, "log"), inj, "c11-child", img, fmt.Sprint(c.N), c.Script)
+			sr := runStrace(bin, d, filepath.Join(d, "log"), inj, c11ChildArgs(img, c)...)
 			r.Eval(1)
 			if sr.Err != nil || sr.T == nil {
 				os.RemoveAll(d)
@@ -544,6 +575,9 @@ func c11Faults(r *core.Run) (landed int64, kindsPlanned, kindsLanded map[string]
 		} else {
 			r.Count("faults_landed", 1)
 			r.Count("faults_landed_"+f.Sys, 1)
+			if _, ok := shortCount(f.Kind); ok {
+				r.Count("short_transfers_landed_"+f.Sys+"_"+f.Kind, 1)
+			}
 			r.Distinct(fmt.Sprintf("fault/%s/call%d/%s/%s#%d/%s", c.Script, f.Call, f.Op, f.Sys, f.Occ, f.Kind))
 			mu.Lock()
 			kindsLanded[f.Sys] = true
@@ -590,6 +624,19 @@ func c11Faults(r *core.Run) (landed int64, kindsPlanned, kindsLanded map[string]
 	return r.GetCount("faults_landed"), kindsPlanned, kindsLanded
 }
 
+// resultField extracts the integer after key= from a child result line.
+func resultField(res, key string) (int, bool) {
+	for _, f := range strings.Fields(res) {
+		if strings.HasPrefix(f, key+"=") {
+			var v int
+			if _, err := fmt.Sscanf(f[len(key)+1:], "%d", &v); err == nil {
+				return v, true
+			}
+		}
+	}
+	return 0, false
+}
+
 func c11Judge(r *core.Run, c c11case, f c11fault, call apiCall, retried bool) {
 	if !call.Ended {
 		r.Count("faults_call_did_not_return", 1)
@@ -600,23 +647,34 @@ func c11Judge(r *core.Run, c c11case, f c11fault, call apiCall, retried bool) {
 		return
 	}
 	detail := map[string]interface{}{"fault": f, "script": c.Script, "num_blocks": c.N, "prior_image": c.Prior, "syscalls_of_the_call": excerpt(call.Sys, 8)}
+	k, short := shortCount(f.Kind)
 	if retried {
 		// the implementation re-issued the syscall and that succeeded: the
-		// underlying operation did not fail in the end. A faked short
-		// transfer moves no data, so only bytes from offset 100 on can be
-		// judged after a retry loop.
+		// underlying operation did not fail in the end. A faked K-byte
+		// transfer moves no data, so the bytes below K are whatever the buffer
+		// (or the file) held before: only bytes from offset K on can be judged
+		// after a retry loop.
 		r.Count("faults_retried_successfully", 1)
-		if f.Kind == "short100" && f.Sys == "pread64" && strings.Contains(call.Result, "tailmatch=no") {
-			r.Violate("short-pread-retry-wrong-data", fmt.Sprintf("%s after a short pread re-read but returned wrong bytes beyond offset 100: %s", f.Op, call.Result), detail)
+		if short && f.Sys == "pread64" {
+			if lb, ok := resultField(call.Result, "lastbad"); ok && strings.Contains(call.Result, "match=") && !strings.Contains(call.Result, "match=unknown") {
+				r.Count("short_pread_retries_judged", 1)
+				if lb >= k {
+					r.Violate("short-pread-retry-wrong-data", fmt.Sprintf("%s after a pread64 that transferred %d of 4096 bytes re-read but returned a byte differing from the last value written at offset %d (>= %d): %s", f.Op, k, lb, k, call.Result), detail)
+				}
+			}
 		}
 		return
 	}
 	r.Count("faults_reported_as_success", 1)
 	switch {
-	case f.Kind == "short100" && f.Sys == "pread64":
-		r.Violate("short-pread-silent", fmt.Sprintf("%s returned normally although pread64 transferred only 100 of 4096 bytes (no further read issued): child reported %q — the bytes beyond the transfer are whatever the buffer held before (dirt=N counts surviving bytes of the pre-filled buffer)", f.Op, call.Result), detail)
-	case f.Kind == "short100" && f.Sys == "pwrite64":
-		r.Violate("short-pwrite-silent", fmt.Sprintf("%s returned normally although pwrite64 transferred only 100 of 4096 bytes (no further write issued)", f.Op), detail)
+	case short && f.Sys == "pread64" && k == 0:
+		r.Violate("zero-byte-pread-silent", fmt.Sprintf("%s returned normally although pread64 transferred 0 of 4096 bytes (as at end of file) and no further read was issued: child reported %q — the block returned is not what was stored (dirt=N counts surviving bytes of the pre-filled buffer, lastbad the last offset differing from the last value written)", f.Op, call.Result), detail)
+	case short && f.Sys == "pread64":
+		r.Violate("short-pread-silent", fmt.Sprintf("%s returned normally although pread64 transferred only %d of 4096 bytes (no further read issued): child reported %q — the bytes beyond the transfer are whatever the buffer held before (dirt=N counts surviving bytes of the pre-filled buffer)", f.Op, k, call.Result), detail)
+	case short && f.Sys == "pwrite64" && k == 0:
+		r.Violate("zero-byte-pwrite-silent", fmt.Sprintf("%s returned normally although pwrite64 transferred 0 of 4096 bytes (no further write issued)", f.Op), detail)
+	case short && f.Sys == "pwrite64":
+		r.Violate("short-pwrite-silent", fmt.Sprintf("%s returned normally although pwrite64 transferred only %d of 4096 bytes (no further write issued)", f.Op, k), detail)
 	default:
 		r.Violate(fmt.Sprintf("fault-%s-%s-%s-reported-success", f.Op, f.Sys, f.Kind),
 			fmt.Sprintf("%s reported success although its %s (occurrence %d) failed with %s", f.Op, f.Sys, f.Occ, f.Kind), detail)
@@ -628,15 +686,19 @@ func runC11(r *core.Run) (bool, string) {
 		"(file pre-filled with a non-zero pattern; after NewFileDisk(path,n): os.Stat length == n*4096, Size()==n, every block read through ReadTo into a buffer pre-filled with the complement of the expectation equals retained-prefix-then-zeros); " +
 		"seeded random write/read/barrier histories with Close + NewFileDisk(path,n') at random points, n' in {n,n+1,n-1,0,2n}, same verification after every reopen (sampled, not exhaustive). " +
 		"(b) faults under strace: the child runs a script (fixed script open,W,W,Barrier,Read,ReadTo,Barrier,Close over prior images absent/larger/exact/smaller, plus seeded random scripts), every API call between BEGIN i/END i marker writes; " +
-		"a recording run yields the per-thread occurrence index of EVERY pwrite64/pread64/fsync/fdatasync/ftruncate inside the markers and each is injected with EIO, ENOSPC, EINTR (exhaustive for the scripts run) and, for pread64/pwrite64, with a faked 100-byte transfer; " +
+		"a recording run yields the per-thread occurrence index of EVERY pwrite64/pread64/fsync/fdatasync/ftruncate inside the markers and each is injected with EIO, ENOSPC, EINTR (exhaustive for the scripts run) and, for pread64/pwrite64, with a faked transfer of 0, 1, 100 and 4095 bytes (the syscall is not executed: the kernel moves no data); " +
 		"an injected run counts only if its own log shows exactly one (INJECTED) line, on the main thread, of the planned syscall, inside the planned markers (else retried once, then inconclusive); " +
-		"violation = the enclosing call reports `ok` and did not re-issue the syscall successfully. " +
+		"violation = the enclosing call reports `ok` and did not re-issue the syscall successfully; after a faked K-byte pread64 followed by a successful re-read, a returned byte at offset >= K differing from the last value written (never-written blocks: the retained prior image, then zeros). " +
 		"A Barrier that returns without any flush syscall in the recording run is a violation (barrier-no-fsync): the statement requires Barrier never to report success when the flush failed, and a Barrier that does not flush cannot surface a failed flush — there is nothing to inject into. " +
-		"distinct = prior-image atoms (n,len) + distinct reopen histories + landed fault points (script,call,op,syscall,occurrence,fault)")
+		"(c) image length changed behind an open disk (child processes, no strace; image_length_* keys): after writing every block the harness truncates the image to 0 / to 1 byte / inside a block / one byte short / on a block boundary / k blocks short, opens a second handle with fewer blocks (kept open, or closed at once) or with more blocks, grows the image by whole or partial blocks, or shrinks and re-extends it; " +
+		"then Read, ReadTo into a dirty buffer, Write at the first, middle, last-in-image, cut / first-beyond-image, last-of-disk and just-beyond-disk block and Barrier, then a sweep of ReadTo+Read over every block; plus seeded random histories over the same alphabet. " +
+		"Per block the harness tracks what IT did: a block it cut away is `missing`/`cut` while the file is shorter than (b+1)*4096 — a read of it that returns normally with anything but the last value written is a violation (panic or the last value written are fine); once the file was re-extended over it the read is `hole` and not judged; a block never removed whose last Write returned must read as that value; reads beyond Size() are recorded only. " +
+		"distinct = prior-image atoms (n,len) + distinct reopen histories + landed fault points (script,call,op,syscall,occurrence,fault) + (mutation, probe, block state, n) classes of reads of removed blocks")
 	r.Assume("strace error=/retval= injection replaces the syscall (it is not executed) and the child's main goroutine is locked to the main thread, so `when=` counts are reproducible; validated per run from the injected run's own log")
 	r.Assume("ext4 scratch directory: ftruncate extends with zeros")
 	c11PriorImages(r)
 	c11Histories(r)
+	c11ImageLength(r)
 	landed, planned, kl := c11Faults(r)
 	notLanded := r.GetCount("faults_not_landed")
 	r.Set("exhaustive", notLanded == 0 && landed > 0)
@@ -651,6 +713,11 @@ func runC11(r *core.Run) (bool, string) {
 	}
 	if r.GetCount("reopens_verified") < 100 || r.GetCount("prior_image_cases") < 20 {
 		return false, "too few reopen cases verified"
+	}
+	removedReads := r.GetCount("image_length_reads_missing_panicked") + r.GetCount("image_length_reads_missing_returned_last_written") + r.GetCount("image_length_reads_missing_returned_other_data") +
+		r.GetCount("image_length_reads_cut_panicked") + r.GetCount("image_length_reads_cut_returned_last_written") + r.GetCount("image_length_reads_cut_returned_other_data")
+	if removedReads < 200 || r.GetCount("image_length_reads_intact_returned_last_written") < 200 {
+		return false, fmt.Sprintf("only %d reads of blocks removed from the image behind the open disk were observed", removedReads)
 	}
 	return true, ""
 }
